@@ -144,6 +144,18 @@ impl Identifier {
         &&& ((t == "us"@ || t == "µs"@) ==> r == Some(TimeUnit::MicroSecond)) &&& (t == "ns"@ ==> r == Some(TimeUnit::NanoSecond))
         &&& (t == "dt"@ ==> r == Some(TimeUnit::Cycle)) &&& (t == "im"@ ==> r == Some(TimeUnit::Imaginary)) }) }),      //@C03,C06:time-unit-spellings
     first::<Identifier>(%s) is None ==> r is None,''' % (KS, KS)))])
+    # PrefixExpr::op_kind: the operator of a unary expression is the one its operator token spells (`!` logical not, `~` bitwise not, `-` negation)
+    U.file('crates/oq3_syntax/src/ast/operators.rs').item('enum', 'UnaryOp')
+    U.raw('''/// the unary operators of OpenQASM 3, by token kind (written from the language)
+pub open spec fn un_op_of(k: SyntaxKind) -> Option<UnaryOp> {
+    match k { SyntaxKind::BANG => Some(UnaryOp::LogicNot), SyntaxKind::TILDE => Some(UnaryOp::Not), SyntaxKind::MINUS => Some(UnaryOp::Neg), _ => None }
+}
+impl PrefixExpr { pub uninterp spec fn sp_op_token(&self) -> Option<SyntaxToken>; }
+''')
+    e.impl('ast::PrefixExpr', [
+        ('op_token', dict(H, ret='r', trusted=True, note='first_child_or_token / into_token: the first element of the node, if it is a token', spec='ensures r == self.sp_op_token(),')),
+        ('op_kind', dict(H, ret='r', spec='ensures r == (match self.sp_op_token() { Some(t) => un_op_of(t.sp_kind()), None => None::<UnaryOp> }),      //@C05,C06:unary-operator-table')),
+    ])
     # D41 (BinExpr::op_details): `self.syntax().children_with_tokens().filter_map(|it| it.into_token()).find_map(|c| { BODY })` -- the
     # iterator frame (the first child token for which BODY yields an operator) stays pinned; BODY, the table token kind -> operator, is
     # copied from /repo on every run into oq3_op_of_token and verified against the operator table bin_op_of written from OpenQASM 3
